@@ -14,7 +14,7 @@ def module_src(i, imports, variant, comment):
     """module i: imports f_j and the module-level variable v_j of every imported module; its own v_i is
     inferred from the first import (so types flow along import chains), f_i returns a literal of the variant type"""
     t, lit = TYPES[variant % len(TYPES)]
-    lines = ['from proj.m%d import f%d, v%d' % (j, j, j) for j in imports]
+    lines = ['from proj.m%d import f%d, v%d, w%d' % (j, j, j, j) for j in imports]
     if lines:
         lines.append('')
     lines.append('v%d = %s' % (i, 'v%d' % imports[0] if imports else lit))
@@ -23,7 +23,12 @@ def module_src(i, imports, variant, comment):
     for j in imports:
         lines.append('\ty%d = f%d()' % (j, j))
         lines.append('\tz%d = v%d' % (j, j))
+        # a signature with eleven entries on one level (ten parameters + the return type)
+        lines.append("\tq%d = w%d(0, 1, 2, 3, 4, 5, 6, 7, 8, 'a')" % (j, j))
     lines.append('\treturn %s' % lit)
+    lines.append('')
+    lines.append('def w%d(%s, p9: str) -> float:' % (i, ', '.join('p%d: int' % k for k in range(9))))
+    lines.append('\treturn 1.5')
     if comment:
         lines.append('# edit %d' % comment)
     return '\n'.join(lines) + '\n'
@@ -121,6 +126,26 @@ def run(ctx: Ctx) -> None:
             sig = 'stale-dependent' if own_header_current and all(imps[m] for m in ms) else 'stale-other'
             ctx.violation(sig, 'a non-forced run leaves an output that a forced run would write differently (%s)' % sig,
                           dict(history=hist, graph=imps, output_dirs=outdirs, oracle_result={f: b[f][-200:] for f in stale}, impl_result={f: a.get(f, '')[-200:] for f in stale}))
+        # ---- the same after an upgrade of the application: headers written by an older version are stale ----
+        if hidx % 2 == 0 and r[0] == 'ok' and r2[0] == 'ok':
+            from rogw.tranp.data.version import Versions
+            old_version = Versions.app
+            Versions.app = '9.9.9'
+            try:
+                r3 = p.run(force=False)
+                a3 = {f: c for f, (c, _) in p.outputs().items()}
+                r4 = p.run(force=True)
+                b3 = {f: c for f, (c, _) in p.outputs().items()}
+            finally:
+                Versions.app = old_version
+            ctx.evaluations += 1
+            ctx.count('version-change')
+            if r3[0] == 'ok' and r4[0] == 'ok' and a3 != b3:
+                stale = sorted(f for f in b3 if a3.get(f) != b3[f])
+                ctx.violation('stale-after-version-change', 'after the application version changed, a non-forced run leaves outputs that a forced run would write differently',
+                              dict(history=hist + [('version', '9.9.9'), ('run',)], graph=imps, output_dirs=outdirs, oracle_result={f: b3[f][:160] for f in stale}, impl_result={f: a3.get(f, '')[:160] for f in stale}))
+            p.run(force=True)
+            b = {f: c for f, (c, _) in p.outputs().items()}
         # distinct modules, distinct paths
         paths = [f for f in b]
         if len(set(paths)) != n + 1:
@@ -175,7 +200,8 @@ def run(ctx: Ctx) -> None:
             base = rnd.choice(['proj', 'proj/sub', 'lib', 'pr.j', 'a'])
             rules.append((base + rnd.choice(['/*', '/']), rnd.choice(['gen', 'out/x', 'flat'])))
         fb = rnd.choice(['./', 'out', 'dist/h'])
-        fp = rnd.choice(['proj', 'proj/sub', 'lib', 'proXj', 'prxj', 'a', 'ab']) + '/' + rnd.choice(['m0.h', 'x/y.h'])
+        # (paths in which the rule's prefix text occurs a second time are part of the pool)
+        fp = rnd.choice(['proj', 'proj/sub', 'lib', 'proXj', 'prxj', 'a', 'ab', 'proj/proj', 'a/a', 'lib/mylib', 'a/x/a', 'proj/sub/proj/sub']) + '/' + rnd.choice(['m0.h', 'x/y.h', 'a/m0.h', 'proj/m0.h'])
         rn = Runner.__new__(Runner)
         rn.config = Cfg()
         rn.config.output_dirs = ['%s:%s' % r for r in rules] + [fb]
